@@ -133,6 +133,41 @@ def run_cases(run: lib.Run, audit: dict, scale: int = 1):
             run.spec_failures.append({"actions": a, "action": x, "documented": model, "impl": got})
 
 
+def nested_modes(run: lib.Run) -> None:
+    """the type mode belongs to the engine, not to whatever is running around it: a lax engine asked for a decision from inside a
+    strict engine's evaluation (through a collaborator) still matches on string forms, and the other way round"""
+    import threading
+    from rbacx.core.engine import Guard
+    pol = {"algorithm": "deny-overrides", "rules": [{"id": "m", "effect": "permit", "actions": ["read"], "resource": {"type": "doc", "id": "7", "attrs": {"level": 1}}}]}
+    coerced = real.make_request({"sid": "u", "roles": [], "sattrs": {}, "action": "read", "rtype": "doc", "rid": 7, "rattrs": {"level": "1"}, "ctx": {}})
+    for outer_strict in (True, False):
+        inner = Guard(pol, strict_types=not outer_strict)
+        seen: list = []
+
+        class Res:
+            def expand(self, roles):
+                seen.append(inner.evaluate_sync(*coerced).allowed)
+                return list(roles)
+        outer = Guard(pol, strict_types=outer_strict, role_resolver=Res())
+        box: dict = {}
+
+        def go():
+            try:
+                box["d"] = outer.evaluate_sync(*coerced).allowed
+            except Exception as e:  # noqa: BLE001
+                box["d"] = "raised:" + type(e).__name__
+        th = threading.Thread(target=go, daemon=True)
+        th.start()
+        th.join(20)
+        run.evaluations += 1
+        run.count("nested-modes")
+        want = {"outer": not outer_strict, "inner": [outer_strict]}     # the lax one matches 7 ~ "7", the strict one does not
+        got = {"outer": box.get("d", "did not return"), "inner": seen}
+        if got != want:
+            run.spec_failures.append({"target": None, "nested": True, "outer_strict": outer_strict, "observed": got, "expected": want,
+                                      "spec": "an engine evaluated inside another engine's decision matched in the other engine's type mode"})
+
+
 def check(run: lib.Run, audit: dict) -> int:
     run.rule = ("exhaustive: 7 target types × 7 target ids × 5 request types × 9 request ids; 14 attribute specs × attrs/attributes key × 11 "
                 "request attribute values (near-duplicates '1'/1/1.0/True/'True'/None/'None', missing key, no attrs); each × lax/strict × 6 paths "
@@ -148,6 +183,7 @@ def check(run: lib.Run, audit: dict) -> int:
     # same compiled function (shared with C03)
     from props import c03 as _c03
     _c03.overlap_check(run, (60 if run.tier == "quick" else 600) * run.boost)
+    nested_modes(run)
     violations = []
     if run.spec_failures:
         path = run.write_replay("spec", {"what": "a path matches differently from the documented target table (Rbacx.matchResource; theorems Rbacx.C05.*)",
